@@ -154,7 +154,9 @@ def explore(binary, harness, bound, budget_s, nshards=None, cache=False, dev_bou
         env["VERIF_ARGS"] = json.dumps(args)
         env.setdefault("GOGC", "400")
         if race:
-            env["GORACE"] = "halt_on_error=0 log_path=%s/race-%s-%d history_size=2" % (work, harness, s)
+            for old in glob.glob("%s/race-%s-%d.*" % (work, harness, s)):
+                os.remove(old)
+            env["GORACE"] = "halt_on_error=0 log_path=%s/race-%s-%d history_size=3" % (work, harness, s)
         if env_extra:
             env.update(env_extra)
         lf = open(os.path.join(work, "log-%s-%d.txt" % (harness, s)), "w")
@@ -166,7 +168,8 @@ def explore(binary, harness, bound, budget_s, nshards=None, cache=False, dev_bou
     for s, (p, lf) in enumerate(procs):
         rc = p.wait()
         lf.close()
-        if (rc != 0 and not (race and rc == 66)) or not os.path.exists(outs[s]):
+        # a -race test binary exits non-zero when the detector reported anything; the result file decides
+        if (rc != 0 and not race) or not os.path.exists(outs[s]):
             failed.append((s, rc))
             continue
         r = json.load(open(outs[s]))
